@@ -242,6 +242,14 @@ def run_real(cfg, sched_seed=0):
                     else:
                         rec['factors'].append(None)
                 model.zero_grad()
+            elif op == 'k':
+                # keep a checkpoint (deep copy) for a later roll-back of THIS preconditioner object
+                kept_state = copy.deepcopy(p.state_dict())
+            elif op == 'b':
+                with warnings.catch_warnings():
+                    warnings.simplefilter('ignore')
+                    p.load_state_dict(copy.deepcopy(kept_state), compute_inverses=True)
+                rec['steps'] = p.steps
             elif op in ('v', 'l1', 'l0'):
                 sd = p.state_dict()
                 rec['state_keys'] = sorted(sd.keys())
